@@ -70,6 +70,12 @@ static int      pv_pipe_iocnt[PV_MAXPIPES]; // p_send + p_recv calls
 static int      pv_npipes;
 static pv_ep   *pv_eps[PV_MAXEPS];
 static pv_ep   *pv_last_ep;
+// "racestart": the next pipe's first p_recv/p_send -- which the protocol issues from its pipe_start,
+// i.e. inside nni_pipe_start after the closed-check -- closes the pipe (as another thread's
+// nng_pipe_close would at that moment) and lets the reaper finish with it before returning.
+static int          pv_race_armed;
+static volatile int pv_race_stopped;
+static nni_pipe    *pv_race_pipe;
 
 static void
 pv_fail_all(nni_list *l, nng_err rv)
@@ -99,6 +105,7 @@ pv_pipe_stop(void *arg)
 	pv_pipe *p = arg;
 	bool     w;
 	nni_mtx_lock(&pv_mtx);
+	if (pv_race_pipe == p->npipe) pv_race_stopped = 1;
 	if (p->ep != NULL) nni_list_node_remove(&p->node);
 	w          = p->waiting;
 	p->waiting = false;
@@ -148,6 +155,24 @@ static void
 pv_pipe_io(pv_pipe *p, nni_aio *aio, nni_list *q)
 {
 	nni_mtx_lock(&pv_mtx);
+	if (pv_race_armed && p->idx >= 0 && pv_pipe_iocnt[p->idx] == 0) {
+		pv_race_armed   = 0;
+		pv_race_stopped = 0;
+		pv_race_pipe    = p->npipe;
+		nni_mtx_unlock(&pv_mtx);
+		nni_pipe_close(p->npipe);
+		for (int i = 0; i < 2000 && !pv_race_stopped; i++) {
+			struct timespec ts = { 0, 1000000 };
+			nanosleep(&ts, NULL);
+		}
+		{
+			// the reaper still has nni_pipe_remove and its nni_pipe_rele to do
+			struct timespec ts = { 0, 20000000 };
+			nanosleep(&ts, NULL);
+		}
+		nni_mtx_lock(&pv_mtx);
+		pv_race_pipe = NULL;
+	}
 	if (p->idx >= 0) pv_pipe_iocnt[p->idx]++;
 	if (!nni_aio_start(aio, pv_pipe_cancel, p)) {
 		nni_mtx_unlock(&pv_mtx);
@@ -611,10 +636,46 @@ dial_aio_cb(void *arg)
 }
 
 // ------------------------------------------------------------------ script mode
+// 1 if some open endpoint that was busy at the previous observation now shows neither a pending
+// transport call nor an armed timer (nor a pipe): either it really went idle, or the expire
+// thread is between clearing a_sleep and dispatching the timer's callback (real time, not counted
+// by hook H2q) -- the caller waits a little and looks again
+static char last_dphase[NEP], last_lphase[NEP];
+static int
+transient_idle(void)
+{
+	int hit = 0;
+	for (int k = 0; k < NEP; k++) {
+		nni_dialer *d;
+		if (dial_open[k] && nni_dialer_find(&d, (uint32_t) nng_dialer_id(dials[k])) == 0) {
+			nni_mtx_lock(&pv_mtx);
+			int conn = dial_ep[k] != NULL && dial_ep[k]->useraio != NULL;
+			nni_mtx_unlock(&pv_mtx);
+			int idle = !conn && !d->d_tmo_aio.a_sleep && d->d_pipe == NULL;
+			if (idle && last_dphase[k] == 'b') hit = 1;
+			nni_dialer_rele(d);
+		}
+		nni_listener *l;
+		if (lst_open[k] && nni_listener_find(&l, (uint32_t) nng_listener_id(lsts[k])) == 0) {
+			nni_mtx_lock(&pv_mtx);
+			int acc = lst_ep[k] != NULL && lst_ep[k]->useraio != NULL;
+			nni_mtx_unlock(&pv_mtx);
+			if (!acc && !l->l_tmo_aio.a_sleep && last_lphase[k] == 'b') hit = 1;
+			nni_listener_rele(l);
+		}
+	}
+	return hit;
+}
+
 static void
 observe(int rv, const char *extra)
 {
 	int q = pv_quiesce();
+	for (int i = 0; i < 40 && transient_idle(); i++) {
+		struct timespec ts = { 0, 1000000 };
+		nanosleep(&ts, NULL);
+		q = pv_quiesce();
+	}
 	printf("rv=%d%s%s", rv, extra ? " " : "", extra ? extra : "");
 	if (q != 0) printf(" NOT-QUIESCENT");
 	// events since the last line, per pipe in order (stable by pipe index)
@@ -671,6 +732,7 @@ observe(int rv, const char *extra)
 			printf("%s", d->d_pipe != NULL ? "p?" : "-");
 		printf("/%d/%d/%d/%s/a%d", (int) d->d_inirtime, (int) d->d_maxrtime, (int) d->d_currtime,
 		    conn ? "c" : (tmo ? "t" : "-"), att);
+		last_dphase[k] = (conn || tmo || d->d_pipe != NULL) ? 'b' : 'i';
 		if (tmo) {
 			// what is left of the delay drawn (never more than the delay itself)
 			nni_time now = nni_clock(), ex = d->d_tmo_aio.a_expire;
@@ -695,6 +757,7 @@ observe(int rv, const char *extra)
 		nni_mtx_unlock(&pv_mtx);
 		int tmo = l->l_tmo_aio.a_sleep ? 1 : 0;
 		printf(" l%d=%s/a%d", k, acc ? "a" : (tmo ? "t" : "-"), att);
+		last_lphase[k] = (acc || tmo) ? 'b' : 'i';
 		if (tmo) {
 			nni_time now = nni_clock(), ex = l->l_tmo_aio.a_expire;
 			printf("/r%lld", ex > now ? (long long) (ex - now) : 0LL);
@@ -745,6 +808,8 @@ reset_all(void)
 	pthread_mutex_lock(&ev_mtx);
 	nev = ev_shown = 0;
 	pthread_mutex_unlock(&ev_mtx);
+	memset(last_dphase, 0, sizeof(last_dphase));
+	memset(last_lphase, 0, sizeof(last_lphase));
 }
 
 #define IDX(t) atoi((t) + 1)
@@ -890,6 +955,10 @@ script_main(void)
 			}
 		} else if (strcmp(op, "advance") == 0) {
 			nng_verif_clock_advance((uint64_t) atoll(tok[1]));
+		} else if (strcmp(op, "racestart") == 0) {
+			nni_mtx_lock(&pv_mtx);
+			pv_race_armed = 1;
+			nni_mtx_unlock(&pv_mtx);
 		} else if (strcmp(op, "poll") == 0) {
 			rv = 0;
 		} else {
@@ -916,6 +985,7 @@ main(int argc, char **argv)
 		rc = scenario_main(argc, argv);
 	else
 		rc = script_main();
+	fflush(stdout); // (LeakSanitizer's exit handler would otherwise discard what is still buffered)
 	nng_fini();
 	return rc;
 }
